@@ -1,4 +1,5 @@
 import Pymeeus.Refine.Easter
+import Pymeeus.Refine.Pesach
 /-
 C19 — Easter, Pesach and Moslem-calendar conversions follow their calendar rules.
 
@@ -42,5 +43,41 @@ theorem easter_sunday_range (y : Int) (hy : -4712 ≤ y) :
 -- Non-vacuity / anchors (Meeus' examples, both calendars, the earliest and the latest date).
 example : easter 1991 = (3, 31) ∧ easter 1818 = (3, 22) ∧ easter 1943 = (4, 25) ∧ easter 2000 = (4, 23) ∧
     easter 179 = (4, 12) ∧ easter 1243 = (4, 12) ∧ easter (-4712) = (4, 7) := by decide +kernel
+
+
+/-- "Jewish Pesach for years 1..3000 falls on a Sunday, Tuesday, Thursday or Saturday and equals
+    15 Nisan of the arithmetic Hebrew calendar, 163 days before the following Rosh Hashanah":
+    for every year 1..3000 the result `(m, d)` is a date of the civil calendar; the Epoch built from
+    it is 0h of the day whose Julian Day Number is 15 Nisan of the Hebrew year `y + 3760` (molad
+    arithmetic and the four postponements of Spec/Hebrew.lean), i.e. 163 days before 1 Tishri of the
+    year `y + 3761`; and `dow()` of that Epoch is 0, 2, 4 or 6.
+    (Integer shadow proved equal to the model for all years; the shadow is evaluated by the kernel
+    on the 3000 years.) -/
+theorem pesach (y : Int) (h1 : 1 ≤ y) (h2 : y ≤ 3000) :
+    Valid y (jewish_pesach y).1 (jewish_pesach y).2 ∧
+    compute_jde y (jewish_pesach y).1 (ofInt (jewish_pesach y).2)
+      = (Hebrew.nisan15 (y + 3760) : ℚ) - 1 / 2 ∧
+    Hebrew.nisan15 (y + 3760) + 163 = Hebrew.roshHashanah (y + 3761) ∧
+    (relig_dow (compute_jde y (jewish_pesach y).1 (ofInt (jewish_pesach y).2)) = 0 ∨
+     relig_dow (compute_jde y (jewish_pesach y).1 (ofInt (jewish_pesach y).2)) = 2 ∨
+     relig_dow (compute_jde y (jewish_pesach y).1 (ofInt (jewish_pesach y).2)) = 4 ∨
+     relig_dow (compute_jde y (jewish_pesach y).1 (ofInt (jewish_pesach y).2)) = 6) := by
+  have hc := pesachCheck_all y h1 h2
+  unfold pesachCheck Hebrew.yearOfPesach at hc
+  simp only [Bool.and_eq_true, Bool.or_eq_true, decide_eq_true_eq] at hc
+  obtain ⟨⟨hj, hw⟩, hv⟩ := hc
+  rw [compute_jde_int, relig_dow_int, jewish_pesach_int, hj]
+  refine ⟨?_, rfl, ?_, ?_⟩
+  · rcases hv with ⟨⟨hm, hd1⟩, hd2⟩ | ⟨⟨hm, hd1⟩, hd2⟩
+    · refine ⟨by omega, by omega, by omega, hd1, ?_, by omega⟩
+      rw [hm]; exact hd2
+    · refine ⟨by omega, by omega, by omega, hd1, ?_, by omega⟩
+      rw [hm]; exact hd2
+  · unfold Hebrew.nisan15; rw [show y + 3760 + 1 = y + 3761 by ring]; ring
+  · rw [← hj]; tauto
+
+-- the years on which the property text and the unit test rest, plus the first Gregorian year
+example : jewish_pesach 1990 = (4, 10) ∧ jewish_pesach 2024 = (4, 23) ∧ jewish_pesach 2025 = (4, 13) ∧
+    jewish_pesach 1583 = (4, 7) := by decide +kernel
 
 end Pymeeus.C19
